@@ -5,7 +5,7 @@
    state.  The search is a decision of the property's own clause ("as if processed one at a time"),
    independent of the granularity at which the implementation happened to be interleaved. *)
 From Chihaya Require Export Glue.Pack.
-From Chihaya Require Import Model.Tracker.
+From Chihaya Require Import Model.Tracker Model.MemLocks.
 Open Scope Z_scope.
 
 (* one atomic store step of a thread, with what the implementation returned for it *)
@@ -39,7 +39,10 @@ Record ccase := {
   c_midflight_ok : bool;                    (* memory: counters = recount whenever no writer held a shard *)
   c_steps_only : bool;                      (* memory: judge every step; redis: only the final state of whole operations *)
   c_post : list sop;                        (* sequential operations run after quiescence (a late, complete expiry pass) *)
-  c_final2 : list (list Z * bool * bool * list Z * Z)    (* membership dump after them *)
+  c_final2 : list (list Z * bool * bool * list Z * Z);   (* membership dump after them *)
+  (* memory store: every lock operation performed during the concurrent phase, in order:
+     (thread, shard, write mode, acquire [true] / release [false]) *)
+  c_locks : list (Z * Z * bool * bool)
 }.
 
 Definition mk_a ih v6 pid ip port lft ev nw : ann :=
@@ -158,6 +161,90 @@ Definition linearizable (c : ccase) : bool :=
   let n := length (concat (c_threads c)) in
   search (S n) (c_clock c) (case_keys c) (c_final c) (c_post c) (c_final2 c) st0 (map (fun t => (t, None)) (c_threads c)).
 
+(* ---- the lock trace of the real store against the lock machine of Model/Locks.v / MemLocks.v:
+   (a) the sequence of lock operations is admissible (an acquire only while compatible with the holders, a
+       release only of what the thread holds, no nesting) - judged with can_acquire / do_acquire / do_release;
+   (b) per thread, the critical sections are those of the MODEL PROGRAM of its operation (cops_prog: same shards,
+       same order, a write step under the write lock; holding a stronger lock than the model is harmless);
+       an expiry pass: the shards in order, one snapshot section then write sections on that shard. *)
+Definition announce_cops (a : ann) (clock : Z) : list cop :=
+  match a_event a with
+  | EvStopped => [CDelSeeder (a_ih a) (a_v6 a) (a_key a); CDelLeecher (a_ih a) (a_v6 a) (a_key a)]
+  | EvCompleted => [CGraduate (a_ih a) (a_v6 a) (a_key a) clock]
+  | _ => if a_left a =? 0 then [CPutSeeder (a_ih a) (a_v6 a) (a_key a) clock] else [CPutLeecher (a_ih a) (a_v6 a) (a_key a) clock]
+  end.
+Definition cstep_cops (clock : Z) (k : cstep) : list cop :=
+  match k with
+  | KPutS ih v6 pk => [CPutSeeder ih v6 pk clock]
+  | KPutL ih v6 pk => [CPutLeecher ih v6 pk clock]
+  | KDelS ih v6 pk _ => [CDelSeeder ih v6 pk]
+  | KDelL ih v6 pk _ => [CDelLeecher ih v6 pk]
+  | KGrad ih v6 pk => [CGraduate ih v6 pk clock]
+  | KScrape ih v6 _ | KAnnCount ih v6 => [CScrape ih v6]
+  | KPeers ih v6 _ _ _ _ _ => [CMembers ih v6]
+  | KAnnSelect a _ _ _ => [CMembers (a_ih a) (a_v6 a)]
+  | KAnnApply a => announce_cops a clock
+  | KGcOne _ _ _ _ => []
+  end.
+Definition prog_sections (l : list (mact shard mres)) : list (nat * bool) :=
+  omap (fun a => match a with MAcq j w => Some (j, w) | _ => None end) l.
+Definition thread_sections (i : Z) (tr : list (Z * Z * bool * bool)) : list (nat * bool) :=
+  omap (fun e : Z * Z * bool * bool => let '(t, sh, w, acq) := e in if (t =? i) && acq then Some (Z.to_nat sh, w) else None) tr.
+Fixpoint sections_cover (exp obs : list (nat * bool)) : bool :=
+  match exp, obs with
+  | [], [] => true
+  | (j, w) :: e, (j', w') :: o => Nat.eqb j j' && implb w w' && sections_cover e o
+  | _, _ => false
+  end.
+(* expiry pass: shards j, j+1, ... < N in order; on each: one section (the snapshot), then write sections *)
+Fixpoint gc_shape (fuel : nat) (j N : nat) (fresh : bool) (obs : list (nat * bool)) : bool :=
+  match fuel with
+  | O => false
+  | S f =>
+    match obs with
+    | [] => (Nat.eqb j N) || (negb fresh && Nat.eqb (S j) N)
+    | (j', w) :: rest =>
+      if fresh then Nat.eqb j' j && Nat.ltb j N && gc_shape f j N false rest
+      else if Nat.eqb j' j then w && gc_shape f j N false rest
+      else gc_shape f (S j) N true obs
+    end
+  end.
+Definition is_gc_thread (t : list cstep) : bool :=
+  existsb (fun k => match k with KGcOne _ _ _ _ => true | _ => false end) t.
+
+(* (a) admissibility *)
+Fixpoint lock_replay (tr : list (Z * Z * bool * bool)) (locks : list (@lockst)) (held : list (Z * (nat * bool))) : bool :=
+  match tr with
+  | [] => match held with [] => true | _ => false end
+  | (t, sh, w, acq) :: rest =>
+    let j := Z.to_nat sh in
+    if sh <? 0 then false else
+    match locks !! j with
+    | None => false
+    | Some l =>
+      if acq then
+        negb (existsb (fun h : Z * (nat * bool) => h.1 =? t) held) && can_acquire w l &&
+        lock_replay rest (<[j := do_acquire w l]> locks) ((t, (j, w)) :: held)
+      else
+        existsb (fun h : Z * (nat * bool) => (h.1 =? t) && Nat.eqb h.2.1 j && Bool.eqb h.2.2 w) held &&
+        lock_replay rest (<[j := do_release w l]> locks) (List.filter (fun h : Z * (nat * bool) => negb (h.1 =? t)) held)
+    end
+  end.
+
+Definition locks_ok (c : ccase) : bool :=
+  match c_kind c with
+  | KRedisC _ => true
+  | KMemC sh =>
+    let n := Z.to_nat sh in
+    let N := (2 * n)%nat in
+    lock_replay (c_locks c) (replicate N lock_free) [] &&
+    forallb (fun it : nat * list cstep =>
+               let obs := thread_sections (Z.of_nat it.1) (c_locks c) in
+               if is_gc_thread it.2 then gc_shape (S (N + length obs)) 0 N true obs
+               else sections_cover (prog_sections (cops_prog n (concat (map (cstep_cops (c_clock c)) it.2)))) obs)
+            (imap (fun i t => (i, t)) (c_threads c))
+  end.
+
 Definition has_gc (c : ccase) : bool :=
   existsb (fun k => match k with KGcOne _ _ _ _ => true | _ => false end) (concat (c_threads c)).
 
@@ -172,6 +259,7 @@ Definition chk04_all (c : ccase) : list Z :=
   (if linearizable c then [] else [if has_gc c then 54 else if c_steps_only c then 41 else 42]) ++
   (if (ts =? rs) && (tl =? rl) && (ti =? ri) then [] else [71]) ++
   (if c_midflight_ok c then [] else [72]) ++
+  (if locks_ok c then [] else [43]) ++
   (if (0 <=? ti) && (0 <=? ts) && (0 <=? tl) then [] else [73]).
 
 Definition ctag (c : ccase) : Z :=
@@ -183,7 +271,7 @@ Definition chk_sel (codes : list Z) (c : ccase) : verdict :=
   end.
 (* C04: membership (41, 42, 54), per-shard counters at observable instants (72), and - when only announce
    operations ran - the totals at quiescence (71, 73) *)
-Definition chk04 (c : ccase) := if has_gc c then chk_sel [41; 42; 54; 72] c else chk_sel [41; 42; 54; 72; 71; 73] c.
+Definition chk04 (c : ccase) := if has_gc c then chk_sel [41; 42; 43; 54; 72] c else chk_sel [41; 42; 43; 54; 72; 71; 73] c.
 Definition chk01c := chk_sel [41; 42; 54].
 Definition chk05c := chk_sel [54].
 Definition chk17c := chk_sel [71; 72; 73].
